@@ -119,6 +119,50 @@ func (x *fx) resolveName(name string, at *ssa.BasicBlock, override map[*ssa.Phi]
 			best = d
 		}
 	}
+	// phis named after the variable (a variable assigned in a loop has a phi
+	// at the header even where no DebugRef dominates the point of interest)
+	var bestPhi *ssa.Phi
+	for _, blk := range x.fn.Blocks {
+		if blk == at || !blk.Dominates(at) {
+			continue
+		}
+		for _, in := range blk.Instrs {
+			ph, ok := in.(*ssa.Phi)
+			if !ok {
+				break
+			}
+			if ph.Comment != name {
+				continue
+			}
+			if bestPhi == nil || bestPhi.Block().Dominates(blk) {
+				bestPhi = ph
+			}
+		}
+	}
+	if bestPhi != nil {
+		usePhi := best == nil
+		if best != nil {
+			bb := best.Block()
+			if vi, ok := best.X.(ssa.Instruction); ok {
+				_ = vi
+			}
+			// prefer the phi if it is defined deeper than the DebugRef'd value's definition
+			var defBlk *ssa.BasicBlock
+			if vi, ok := best.X.(ssa.Instruction); ok {
+				defBlk = vi.Block()
+			}
+			if defBlk == nil || (defBlk != bestPhi.Block() && defBlk.Dominates(bestPhi.Block())) {
+				usePhi = true
+			}
+			_ = bb
+		}
+		if usePhi {
+			if t, ok := override[bestPhi]; ok {
+				return TV{t, bestPhi.Type()}, true
+			}
+			return TV{x.val(bestPhi), bestPhi.Type()}, true
+		}
+	}
 	if best == nil {
 		return TV{}, false
 	}
